@@ -288,9 +288,12 @@ func TestVerifC08Pairs(t *testing.T) {
 		return &c
 	}
 	probes := []*topology.FunctionTopology{anchor,
-		mk(func(c *topology.FunctionTopology) { c.InstrCount = 13 }),                                            // same fuzzy bucket, other exact hash
-		mk(func(c *topology.FunctionTopology) { c.InstrCount = 13; c.EntropyScore = 7.7 }),                     // entropy near
-		mk(func(c *topology.FunctionTopology) { c.CallSignatures = map[string]int{"fmt.Println": 1}; c.StringLiterals = nil }), // calls absent
+		mk(func(c *topology.FunctionTopology) { c.InstrCount = 13 }),                       // same fuzzy bucket, other exact hash
+		mk(func(c *topology.FunctionTopology) { c.InstrCount = 13; c.EntropyScore = 7.7 }), // entropy near
+		mk(func(c *topology.FunctionTopology) {
+			c.CallSignatures = map[string]int{"fmt.Println": 1}
+			c.StringLiterals = nil
+		}), // calls absent
 	}
 	th := detection.GenerateTopologyHash(anchor)
 	fh := anchor.FuzzyHash
